@@ -339,7 +339,7 @@ def scalar_side(case, binding_raw) -> str | None:
     return None
 
 
-def coq_observed(case, res) -> str:
+def coq_observed(case, res) -> tuple:
     """The observation as a term of type [observed]; raises NotRepresentable when the model's
     vocabulary cannot express it (that is a disagreement by itself)."""
     calls = res["calls"]
@@ -348,7 +348,7 @@ def coq_observed(case, res) -> str:
         err = {"shape": "EShape", "matmul-order": "EMatmulOrder", "type": "ENotImplemented"}.get(got)
         if err is None:
             raise NotRepresentable(f"no request and outcome {got}")
-        return f"(ObsError {err})"
+        return ("err", err)
     if len(calls) > 1:
         raise NotRepresentable("more than one call of evaluate_tensora")
     call = calls[0]
@@ -377,10 +377,9 @@ def coq_observed(case, res) -> str:
         out_format = "None"
     else:
         raise NotRepresentable(f"request made but outcome {got}")
-    return (
-        f"(ObsRequest {assignment} {coq_term_str(call['assignment'])} {coq_format(call['format'])} "
-        f"{coq_term_str(call['output_format'])} {coq_list(binds)} {dims} {out_format})"
-    )
+    # components, assembled (and interned) per shard by coq_shard_text
+    return ("req", assignment, coq_term_str(call["assignment"]), coq_format(call["format"]),
+            coq_term_str(call["output_format"]), coq_list(binds), dims, out_format)
 
 
 PYOP = {"+": "PyAdd", "-": "PySub", "*": "PyMul", "@": "PyMatmul"}
@@ -391,18 +390,40 @@ COQ_HEADER = (
 )
 
 
-def coq_case(case, res) -> str:
+def coq_case(case, res) -> tuple:
     l = coq_operand_from(case["left"], res.get("left_raw"))
     r = coq_operand_from(case["right"], res.get("right_raw"))
-    return f"({case['id']}%nat, {PYOP[case['op']]}, {l}, {r}, {coq_observed(case, res)})"
+    return (PYOP[case["op"]], l, r, coq_observed(case, res))
 
 
-def coq_shard_text(terms: list[str]) -> str:
-    body = ";\n  ".join(terms)
+def coq_shard_text(rows: list[tuple[int, tuple[str, str, str, str]]]) -> str:
+    """rows: (representative id, (pyop, left, right, observed)).  Operand and observation terms are
+    interned as top-level definitions (string literals are expensive for coqc to elaborate)."""
+    names: dict[str, str] = {}
+    defs: list[str] = []
+
+    def intern(term: str, ty: str) -> str:
+        if term not in names:
+            names[term] = f"t{len(names)}"
+            defs.append(f"Definition {names[term]} : {ty} := {term}.")
+        return names[term]
+
+    def observed(o: tuple) -> str:
+        if o[0] == "err":
+            return f"(ObsError {o[1]})"
+        _, assignment, astr, fmt, fstr, binds, dims, out_format = o
+        return (f"(ObsRequest {intern(assignment, 'assignment')} {intern(astr, 'string')} "
+                f"{intern(fmt, 'format')} {intern(fstr, 'string')} "
+                f"{intern(binds, 'list (string * binding)')} {dims} {out_format})")
+
+    body = []
+    for i, (p, l, r, o) in rows:
+        body.append(f"({i}%nat, {p}, {intern(l, 'operand')}, {intern(r, 'operand')}, {observed(o)})")
     return (
         COQ_HEADER
-        + "Definition cases : list (nat * pyop * operand * operand * observed) :=\n  ["
-        + body
+        + "\n".join(defs)
+        + "\nDefinition cases : list (nat * pyop * operand * operand * observed) :=\n  ["
+        + ";\n  ".join(body)
         + "].\n"
         "Eval vm_compute in (map (fun c => match c with (i, _, _, _, _) => i end)\n"
         "  (filter (fun c => match c with (_, p, l, r, o) => negb (obs_agrees p l r o) end) cases)).\n"
@@ -475,7 +496,7 @@ def generate(chk: Check) -> list[dict]:
     fmts = {n: all_formats(n) for n in range(4)}
 
     # (A) tensor <op> tensor, equal dimensions
-    k_inputs = 6 if thorough else 3
+    k_inputs = 8 if thorough else 3
     for n in (0, 1, 2):
         for fa in fmts[n]:
             for fb in fmts[n]:
@@ -486,9 +507,9 @@ def generate(chk: Check) -> list[dict]:
     pairs3 = [(fa, fb) for fa in fmts[3] for fb in fmts[3]]
     natural3 = [(fa, fb) for fa, fb in pairs3 if is_natural(fa[1]) and is_natural(fb[1])]
     if thorough:
-        chosen = [(p, 1) for p in pairs3] + [(p, 2) for p in natural3] + [(p, 2) for p in rng.sample(pairs3, 250)]
+        chosen = [(p, 2) for p in pairs3] + [(p, 3) for p in natural3] + [(p, 2) for p in rng.sample(pairs3, 400)]
     else:
-        chosen = [(p, 1) for p in rng.sample(natural3, 24)] + [(p, 1) for p in rng.sample(pairs3, 60)]
+        chosen = [(p, 1) for p in rng.sample(natural3, 24)] + [(p, 1) for p in rng.sample(pairs3, 72)]
     for (fa, fb), k in chosen:
         for dims in dims_choices(rng, 3, k):
             a, b = tensor(rng, dims, fa), tensor(rng, dims, fb)
@@ -536,7 +557,7 @@ def generate(chk: Check) -> list[dict]:
             add("@", s, t, "scalar-matmul")
 
     # (C) matrix multiplication, the four shapes, all format pairs
-    k_mm = 8 if thorough else 3
+    k_mm = 12 if thorough else 3
     for na, nb in ((1, 1), (2, 1), (1, 2), (2, 2)):
         for fa in fmts[na]:
             for fb in fmts[nb]:
@@ -647,11 +668,23 @@ def correspondence(chk: Check, cases: list[dict], results: dict[int, dict]) -> l
             terms.append((c["id"], coq_case(c, r)))
         except (NotRepresentable, Malformed, KeyError) as e:
             unrepresentable.append({"id": c["id"], "why": f"observation outside the model's vocabulary: {e}"})
-    shards = [terms[i : i + 500] for i in range(0, len(terms), 500)]
+    # identical (operator, operand descriptions, observation) need to be evaluated once
+    groups: dict[tuple, list[int]] = {}
+    for i, t in terms:
+        groups.setdefault(t, []).append(i)
+    rows = [(ids[0], t) for t, ids in groups.items()]
+    members = {ids[0]: ids for ids in groups.values()}
+    shards = [rows[i : i + 500] for i in range(0, len(rows), 500)]
+    chk.count("correspondence_distinct_terms", len(rows))
 
     def one(ix_shard):
         ix, shard = ix_shard
-        ok, out = chk.coq_eval(f"c11_shard{ix}", coq_shard_text([t for _, t in shard]), timeout=600)
+        ok, out = chk.coq_eval(f"c11_shard{ix}", coq_shard_text(shard), timeout=600)
+        if not ok and "inconsistent assumptions" in out:
+            # a shared library was recompiled by somebody else between our build and this
+            # evaluation: rebuild our model against it and try once more
+            chk.coq_make(["model/Operators.vo"], timeout=600)
+            ok, out = chk.coq_eval(f"c11_shard{ix}", coq_shard_text(shard), timeout=600)
         failing = parse_failing(out) if ok else None
         return ix, ok, out, failing
 
@@ -662,8 +695,10 @@ def correspondence(chk: Check, cases: list[dict], results: dict[int, dict]) -> l
                 chk.broken.append({"kind": "correspondence", "what": f"coqc failed on shard {ix}",
                                    "coq_output_tail": out[-1500:]})
                 continue
-            for i in failing:
-                bad.append({"id": i, "why": "request differs from the model's"})
+            for rep in failing:
+                for i in members.get(rep, [rep]):
+                    bad.append({"id": i, "why": "request differs from the model's"})
+    bad.sort(key=lambda b: b["id"])
     return bad
 
 
@@ -816,6 +851,9 @@ def checks_correspondence(chk: Check):
             "  (filter (fun c => match c with (_, q, l, r, o, s) =>\n"
             "     negb (checks_agree q l r o && String.eqb (deparse_assignment (rq_assignment q)) s) end) cases)).\n")
     ok, out = chk.coq_eval("c11_checks", text, timeout=600)
+    if not ok and "inconsistent assumptions" in out:
+        chk.coq_make(["model/Operators.vo"], timeout=600)
+        ok, out = chk.coq_eval("c11_checks", text, timeout=600)
     failing = parse_failing(out) if ok else None
     kinds = {}
     for c in cases:
@@ -894,6 +932,8 @@ def run(chk: Check):
 
     timing["coq_total"] = round(_time.time() - t0, 1)
     t1 = _time.time()
+    side = ThreadPoolExecutor(max_workers=1)
+    side_job = side.submit(checks_correspondence, chk)     # independent of the sweep: run alongside
     results = run_harness(chk, cases)
     timing["harness"] = round(_time.time() - t1, 1)
     by_id = {c["id"]: c for c in cases}
@@ -945,8 +985,9 @@ def run(chk: Check):
                            "model": model_answer(chk, c, r)})
     chk.note(f"corpus cases: {n_corpus}; generated: {len(cases) - n_corpus}")
     t3 = _time.time()
-    checks_correspondence(chk)
-    timing["request_checks_correspondence"] = round(_time.time() - t3, 1)
+    side_job.result()
+    side.shutdown()
+    timing["request_checks_correspondence_wait"] = round(_time.time() - t3, 1)
 
 
 def replay(chk: Check, payload: dict) -> int:
